@@ -132,3 +132,20 @@ Proof.
   rewrite (circ_mat_column T t0 t1 tadd tmul tsub topp Tring h e n).
   apply (qft_matrix_column T t0 t1 tadd tmul tsub topp Tring h e e0 eadd x Hn ehalf).
 Qed.
+
+Theorem qft_circ_mat_column_noswap :
+  forall (T : Type) (t0 t1 : T) (tadd tmul tsub : T -> T -> T) (topp : T -> T),
+  ring_theory t0 t1 tadd tmul tsub topp (@eq T) ->
+  forall (h : T) (e : nat -> T),
+  e 0 = t1 -> (forall a b, e (a + b) = tmul (e a) (e b)) ->
+  forall x : bits, let n := length x in
+  1 <= n -> e (2 ^ (n - 1)) = topp t1 ->
+  mmul (KT T t0 t1 tadd tmul)
+       (circ_mat (KT T t0 t1 tadd tmul) n (map (to_gapp T t0 t1 topp h e n) (qft n false)))
+       (col T (bvec T n (fun c => if beqb x c then t1 else t0)))
+  = col T (bvec T n (fun y => tmul (tpow T t1 tmul h n) (e (qphase n x 0 * rev_value n y)))).
+Proof.
+  intros T t0 t1 tadd tmul tsub topp Tring h e e0 eadd x n Hn ehalf.
+  rewrite (circ_mat_column T t0 t1 tadd tmul tsub topp Tring h e n).
+  apply (qft_matrix_column_noswap T t0 t1 tadd tmul tsub topp Tring h e e0 eadd x Hn ehalf).
+Qed.
